@@ -57,15 +57,17 @@ HARNESS_RE = re.compile(r"^C08-HARNESS: (.+)$", re.M)
 HS_NAMES = {0: "HELLO_REQUEST", 1: "CLIENT_HELLO", 2: "SERVER_HELLO", 3: "HELLO_VERIFY_REQUEST", 4: "NEW_SESSION_TICKET",
             5: "END_OF_EARLY_DATA", 8: "ENCRYPTED_EXTENSIONS", 11: "CERTIFICATE", 12: "SERVER_KEY_EXCHANGE", 13: "CERTIFICATE_REQUEST",
             14: "SERVER_HELLO_DONE", 15: "CERTIFICATE_VERIFY", 16: "CLIENT_KEY_EXCHANGE", 20: "FINISHED", 22: "CERTIFICATE_STATUS",
-            255: "DONE", 63: "DONE"}
+            23: "TLS13_START", 24: "TLS13_RECVD_CH", 25: "TLS13_NEGOTIATED", 26: "TLS13_WAIT_FLIGHT_2", 27: "TLS13_WAIT_EOED",
+            28: "TLS13_WAIT_CERT", 29: "TLS13_WAIT_CV", 30: "TLS13_WAIT_FINISHED", 31: "TLS13_SEND_NST", 32: "TLS13_WAIT_SH",
+            33: "TLS13_WAIT_EE", 34: "TLS13_WAIT_CERT_CR", 35: "TLS13_SEND_FINISHED", 255: "DONE", 63: "DONE"}
 
 
-def fenv(target, verbose=False, tuples=None):
+def fenv(target, verbose=False, tuples=None, suar=False):
     e = dict(os.environ)
     e["C08_TARGET"] = target
     for k in ("C08_GEN", "C08_SELFCHECK", "C08_VERBOSE", "C08_TUPLES", "LSAN_OPTIONS"):
         e.pop(k, None)
-    e["ASAN_OPTIONS"] = ASAN_OPTS
+    e["ASAN_OPTIONS"] = ASAN_OPTS.replace("detect_stack_use_after_return=0", "detect_stack_use_after_return=1") if suar else ASAN_OPTS
     e["UBSAN_OPTIONS"] = "print_stacktrace=1"
     if verbose:
         e["C08_VERBOSE"] = "1"
@@ -225,18 +227,18 @@ def absorb_stats(tr, text):
                 tr.hshist[int(k)] = tr.hshist.get(int(k), 0) + int(v)
 
 
-def run_files(binary, target, files, tr, cwd, want_samples=0, origin=None, tuples=None):
+def run_files(binary, target, files, tr, cwd, want_samples=0, origin=None, tuples=None, suar=False, tag="replay"):
     """libFuzzer 'execute these files' mode; restart after each crashing file. Returns surviving files."""
     remaining = list(files)
     good = []
     n = 0
     while remaining:
         n += 1
-        errp = os.path.join(cwd, "replay%d.err" % n)
+        errp = os.path.join(cwd, "%s%d.err" % (tag, n))
         with open(errp, "w") as ef:
             try:
                 p = subprocess.run([binary, "-timeout=10", "-rss_limit_mb=4096", "-artifact_prefix=%s/art/" % cwd] + remaining,
-                                   stdout=subprocess.DEVNULL, stderr=ef, env=fenv(target, True, tuples), cwd=cwd, timeout=1800)
+                                   stdout=subprocess.DEVNULL, stderr=ef, env=fenv(target, True, tuples, suar), cwd=cwd, timeout=1800)
                 rc = p.returncode
             except subprocess.TimeoutExpired:
                 tr.incon.append("%s: seed replay exceeded the wall-clock watchdog" % target)
@@ -499,6 +501,29 @@ def memcheck_phase(outroot, runs, res, limit_total, per_proc=8):
     return total
 
 
+def suar_phase(binary, outroot, runs, res, per_target):
+    """thorough: the DTLS / TLS 1.3 corpora once more under ASan with detect_stack_use_after_return=1"""
+    jobs = [tr for tr in runs if any(x in tr.name for x in ("dtls", "tls13", "multi"))]
+
+    def one(tr):
+        cwd = os.path.join(outroot, tr.name)
+        files = sorted(glob.glob(os.path.join(cwd, "work", "*")), key=lambda f: (os.path.getsize(f), f))[:per_target]
+        t2 = TargetRun(tr.name)
+        if files:
+            run_files(binary, tr.name, files, t2, cwd, suar=True, tag="suar")
+        return t2
+
+    total = 0
+    with ThreadPoolExecutor(max_workers=vflib.NCPU) as ex:
+        for t2 in ex.map(one, jobs):
+            total += t2.execs
+            res.incon += t2.incon
+            for key, excerpt, apath in t2.viol:
+                res.add_violation(key, "[stack-use-after-return pass, target %s] %s" % (t2.name, excerpt), keep_artifact(t2.name, key, apath))
+    res.add_stat("stack_use_after_return_pass_files", total)
+    return total
+
+
 def replay_one(ctx, binary):
     rp = json.load(open(ctx.replay)) if os.path.exists(ctx.replay) and ctx.replay.endswith(".json") else {"replay": ctx.replay}
     spec = rp.get("replay") or ""
@@ -576,7 +601,7 @@ def run(ctx):
     targets.sort(key=lambda t: -t[1])
     budget = int(os.environ.get("C08_RUNS") or (1500000 if ctx.thorough else 20000))
     max_restarts = int(os.environ.get("C08_RESTARTS") or (60 if ctx.thorough else 8))
-    watchdog = 14400 if ctx.thorough else 150
+    watchdog = 6 * 3600 if ctx.thorough else 900   # safety net only: the budget is -runs
     outroot = os.path.join(vflib.SCRATCH, ".out", "C08-%d" % os.getpid())
     shutil.rmtree(outroot, ignore_errors=True)
     os.makedirs(outroot)
@@ -622,6 +647,7 @@ def run(ctx):
     evaluations = sum(tr.execs for tr in runs)
     if ctx.thorough and not os.environ.get("C08_NO_MEMCHECK"):
         evaluations += memcheck_phase(outroot, runs, res, int(os.environ.get("C08_MEMCHECK_FILES") or 480))
+        evaluations += suar_phase(binary, outroot, runs, res, int(os.environ.get("C08_SUAR_FILES") or 200))
     digest = hashlib.sha256()
     for r, _, fs in sorted(os.walk(CORPUS)):
         for f in sorted(fs):
